@@ -97,7 +97,11 @@ def gen(data: bytes):
                                 if c != cls])]
     elif name == "relabel":
         from vp.props.c11 import gen_mapping
-        deriv = [name, gen_mapping(tp, m.atoms)]
+        mp_ = gen_mapping(tp, m.atoms)
+        if tp.chance(25):
+            # a mapping that only names atoms of other graphs
+            mp_ = [[90001 + i, 90101 + i] for i in range(1 + tp.below(3))]
+        deriv = [name, mp_]
     elif name == "subgraph":
         atoms = list(m.atoms)
         k = 1 + tp.below(len(atoms))
